@@ -32,7 +32,7 @@ func wellFormed(q ledger.Posting) string {
 	return ""
 }
 
-const ruleC28 = "C22 generator plus literal assets at the edge of the lexer rule (A/, /2, 2USD, USD/1234567, 19-letter names, ...), variables and meta()-sourced accounts, run through both runtime adapters (machine and interpreter); every posting of every successful execution result is matched against own copies of the account and asset patterns; non-trivial = successful run of a program using an edge literal or a meta()/variable account; distinct = by script + vars + balances. (The postings/template/import creation paths are exercised by the ledger-level check in engine E2.)"
+const ruleC28 = "C22 generator plus literal assets at the edge of the lexer rule (A/, /2, 2USD, USD/1234567, 19-letter names, ...), variables and meta()-sourced accounts, in one case out of three with cross-type values (an asset string given to an account variable or stored as account metadata, an address given to an asset or monetary variable), run through both runtime adapters (machine and interpreter); every posting of every successful execution result is matched against own copies of the account and asset patterns; non-trivial = successful run of a program using an edge literal or a meta()/variable account; distinct = by script + vars + balances. (The postings/template/import creation paths are exercised by the ledger-level check in engine E2.)"
 
 func TestC28(t *testing.T) {
 	st := stats.New("C28", "exploration", ruleC28)
@@ -46,6 +46,36 @@ func TestC28(t *testing.T) {
 	stats.Check(t, n, 28, func(rt *rapid.T) {
 		p := GenProgram(rt, Opts{MaxStmts: 2, MaxDepth: 2, BigAmount: true, Common: true, EdgeLiterals: true})
 		classes := p.FeatureList()
+		// cross-type confusion: a value that is valid for the other kind of variable (an asset where an
+		// account is expected and vice versa, also through meta()-sourced accounts); both runtimes must
+		// refuse it or, at any rate, never let it into a posting
+		confused := false
+		if rapid.IntRange(0, 2).Draw(rt, "crossType") == 0 {
+			for _, d := range p.Decls {
+				switch {
+				case d.Type == "account" && d.Origin == "" && rapid.Bool().Draw(rt, "assetAsAccount"):
+					p.Vars[d.Name] = rapid.SampledFrom([]string{"USD/2", "COIN/6", "JPY/0", "EUR_X/1"}).Draw(rt, "assetLike")
+					confused = true
+				case d.Type == "asset" && d.Origin == "" && rapid.Bool().Draw(rt, "accountAsAsset"):
+					p.Vars[d.Name] = rapid.SampledFrom([]string{"a", "bank", "u:1", "x_y-z", "world"}).Draw(rt, "accountLike")
+					confused = true
+				case d.Type == "monetary" && d.Origin == "" && rapid.IntRange(0, 3).Draw(rt, "accountAsMonetaryAsset") == 0:
+					p.Vars[d.Name] = rapid.SampledFrom([]string{"a", "bank", "x_y-z"}).Draw(rt, "accountLike") + " 5"
+					confused = true
+				}
+			}
+			for holder, m := range p.Meta {
+				for k := range m {
+					if rapid.IntRange(0, 2).Draw(rt, "assetInMeta") == 0 {
+						p.Meta[holder][k] = rapid.SampledFrom([]string{"USD/2", "COIN/6", "JPY/0"}).Draw(rt, "assetLikeMeta")
+						confused = true
+					}
+				}
+			}
+		}
+		if confused {
+			classes = append(classes, "cross-type-value")
+		}
 		anyOK := false
 		for _, name := range []string{"machine", "interpreter"} {
 			r := runAdapter(parsers[name], p)
